@@ -1074,7 +1074,12 @@ class SCFGIO:
         if backedges is None:
             backedges = {}
 
-        scfg_graph = {}
+        # Create the graph of this level before any of its sub-regions, such
+        # that the outermost graph is the first to obtain a (meta) region name
+        # from the name generator, as is the case when a graph is built from
+        # scratch.
+        scfg = SCFG({}, name_gen=name_gen)
+        scfg_graph = scfg.graph
         seen = set()
         # The queue must be a sorted FIFO to maintain reproducible insertion
         # order for the SCFG.
@@ -1104,6 +1109,9 @@ class SCFGIO:
                     block_info["exiting"],
                 )
                 block_info.pop("contains")
+                # The parent is recorded by name only, the actual parent
+                # region block is linked in below.
+                block_info.pop("parent_region", None)
 
             block_class = block_type_names[block_type]
             block = block_class(
@@ -1113,11 +1121,23 @@ class SCFGIO:
                 **block_info,
             )
 
+            if block_type == "region":
+                # The sub-graph represents this region and any region nested
+                # directly inside of it has this region as its parent.
+                object.__setattr__(block.subregion, "region", block)
+                for nested in block.subregion.graph.values():
+                    if isinstance(nested, RegionBlock):
+                        object.__setattr__(nested, "parent_region", block)
+
             scfg_graph[current_name] = block
             if current_name != exiting:
                 queue.extend(edges[current_name])
 
-        scfg = SCFG(scfg_graph, name_gen=name_gen)
+        # Regions of this level belong to the region the graph represents
+        # (replaced by the caller if this graph is a sub-region itself).
+        for block in scfg.graph.values():
+            if isinstance(block, RegionBlock):
+                object.__setattr__(block, "parent_region", scfg.region)
         return scfg
 
     @staticmethod
